@@ -30,7 +30,7 @@ Proof.
     change (256 ^ N.of_nat 8) with W64. exact Hc.
 Qed.
 
-Lemma mv_header_length es len cap : length (mv_header_bytes es len cap) = 64%nat.
+Lemma mv_header_length es len cap : length (mv_header_bytes es len cap) = 80%nat.
 Proof. unfold mv_header_bytes. repeat rewrite app_length. repeat rewrite le_bytes_length. rewrite zeros_length. reflexivity. Qed.
 
 Lemma mv_data_length es xs : length (mv_data_bytes es xs) = (length xs * es)%nat.
@@ -83,22 +83,22 @@ Proof.
   replace (cap * es + MV_HEADER <? W64) with true by (symmetry; apply N.ltb_lt; lia).
   replace (cap * es + MV_HEADER <=? MV_HEADER + cap * es) with true by (symmetry; apply N.leb_le; lia).
   cbn [andb]. f_equal. f_equal.
-  unfold mv_image. rewrite (skipn_app_exact _ _ 64%nat (mv_header_length _ _ _)).
+  unfold mv_image. rewrite (skipn_app_exact _ _ 80%nat (mv_header_length _ _ _)).
   rewrite nlen_nat. apply read_elems_data.
   rewrite N2Nat.id. exact Hxs.
 Qed.
 
 (* T: whatever open accepts - any byte string at all - lies inside the file: get(i), i < len, touches only
-   bytes [64 + i*es, 64 + (i+1)*es) and 64 + len*es <= |file| *)
+   bytes [80 + i*es, 80 + (i+1)*es) and 80 + len*es <= |file| *)
 Lemma read_elems_length es n : forall d, length (read_elems es d n) = n.
 Proof. induction n as [|n IH]; intros d; cbn [read_elems length]; [reflexivity|]. now rewrite IH. Qed.
 
 Lemma mv_open_some es f n xs :
   mv_open es f = Some (n, xs) ->
   mv_hdr_ok es (mv_parse f) = true /\ mv_len_ok es (mv_parse f) (nlen f) = true /\
-  n = h_len (mv_parse f) /\ xs = read_elems (N.to_nat es) (skipn 64 f) (N.to_nat (h_len (mv_parse f))).
+  n = h_len (mv_parse f) /\ xs = read_elems (N.to_nat es) (skipn 80 f) (N.to_nat (h_len (mv_parse f))).
 Proof.
-  unfold mv_open. remember (skipn 64 f) as d. remember (mv_parse f) as h.
+  unfold mv_open. remember (skipn 80 f) as d. remember (mv_parse f) as h.
   destruct (mv_hdr_ok es h && mv_len_ok es h (nlen f)) eqn:E; [|discriminate].
   intros H. apply andb_prop in E. destruct E as (E1 & E2).
   injection H as Hn Hx. repeat split; try assumption; symmetry; assumption.
@@ -130,10 +130,10 @@ Proof.
   - rewrite IH by lia. rewrite skipn_skipn. do 4 f_equal. lia.
 Qed.
 
-(* element i of what open returns is the little-endian value of the file bytes at 64 + i*es *)
+(* element i of what open returns is the little-endian value of the file bytes at 80 + i*es *)
 Lemma mv_open_elements_proof es f n xs i :
   mv_open es f = Some (n, xs) -> (i < N.to_nat n)%nat ->
-  nth_error xs i = Some (field f (64 + i * N.to_nat es) (N.to_nat es)).
+  nth_error xs i = Some (field f (80 + i * N.to_nat es) (N.to_nat es)).
 Proof.
   intros H Hi. apply mv_open_some in H. destruct H as (_ & _ & -> & ->).
   rewrite read_elems_nth by exact Hi. unfold field. rewrite skipn_skipn. do 4 f_equal. lia.
@@ -151,7 +151,7 @@ Proof.
   unfold mv_open.
   assert (Hnl : nlen (firstn k img) = N.of_nat k) by (apply nlen_firstn; lia).
   rewrite Hnl.
-  destruct (Nat.lt_ge_cases k 64) as [Hs|Hs].
+  destruct (Nat.lt_ge_cases k 80) as [Hs|Hs].
   - unfold mv_len_ok. replace (MV_HEADER <=? N.of_nat k) with false
       by (symmetry; apply N.leb_gt; unfold MV_HEADER; lia).
     cbn [andb]. rewrite andb_false_r. reflexivity.
@@ -182,7 +182,7 @@ Proof.
   intros H. destruct st as (n, xs). pose proof H as H0.
   apply mv_open_inside_file_proof in H0. destruct H0 as (Hin & _).
   apply mv_open_some in H. destruct H as (E1 & E2 & Hn & Hx).
-  assert (H64 : (64 <= length f)%nat).
+  assert (H64 : (80 <= length f)%nat).
   { unfold mv_len_ok in E2. repeat (apply andb_prop in E2; destruct E2 as (E2 & ?)).
     apply N.leb_le in E2. unfold MV_HEADER in E2. rewrite nlen_length in E2. lia. }
   assert (Hp : mv_parse (f ++ extra) = mv_parse f).
@@ -193,7 +193,7 @@ Proof.
     - apply N.leb_le. apply N.leb_le in E2. lia.
     - apply N.leb_le. match goal with h : (_ + MV_HEADER <=? _) = true |- _ => apply N.leb_le in h end. lia. }
   unfold mv_open. rewrite Hp, E1, E3. cbn [andb]. subst n xs. f_equal. f_equal.
-  rewrite skipn_app. replace (64 - length f)%nat with 0%nat by lia.
+  rewrite skipn_app. replace (80 - length f)%nat with 0%nat by lia.
   change (skipn 0 extra) with extra.
   apply read_elems_app. rewrite skipn_length.
   unfold mv_touched_end, MV_HEADER in Hin. rewrite nlen_length in Hin.
